@@ -517,7 +517,7 @@ benign('C18', 'Int bounds as two strict comparisons (no NaN for ints)',
 seeded('C18', 'Float bounds as two strict comparisons (NaN passes)', 'R18.2',
        [('parameters', "            raise TypeError(f\"parameter value {value} not a number\")\n        if not self._min <= value <= self._max:", "            raise TypeError(f\"parameter value {value} not a number\")\n        if value < self._min or value > self._max:")], key='InputParameterFloat')
 seeded('C14', 'stream setter skips equal streams', 'R14.2',
-       [('distributions', "        self._set_stream(stream)\n\n    def _next_positive_float", "        if stream != self._stream:\n            self._set_stream(stream)\n\n    def _next_positive_float")], key='setter')
+       [('distributions', "        \"\"\"Set a new random stream for this distribution.\"\"\"\n        self._set_stream(stream)\n", "        \"\"\"Set a new random stream for this distribution.\"\"\"\n        if stream != self._stream:\n            self._set_stream(stream)\n")], key='setter')
 seeded('C13', 're-seeding skipped when the seed is unchanged', 'R13.5',
        [('streams', "        stream.set_seed(stream.original_seed() + replication_nr * ", "        if stream.seed() != stream.original_seed():\n          stream.set_seed(stream.original_seed() + replication_nr * ")])
 seeded('C06', 'cleanup() after construct_model()', 'R6.1',
